@@ -950,7 +950,7 @@ def rule_r12(ctx):
     ctx.require(n >= 2, f"only {n} looping call() methods found in the pass infrastructure")
 
 
-def rule_r11(ctx):
+def rule_r11(ctx, rule="R11"):
     n = 0
     for m in ctx.repo.modules.values():
         if not m.name.startswith("onnx_ir.passes.common.") or m.name.endswith("_test"):
@@ -992,14 +992,21 @@ def rule_r11(ctx):
                             continue
                         n += 1
                         # names derived from the graph's initializers
-                        derived = {t.id for d in own_nodes(f.node) if isinstance(d, ast.Assign) and any(isinstance(y, ast.Attribute) and y.attr == "initializers" for y in ast.walk(d.value))
+                        # names derived from the initializers of THIS graph: the defining expression reads `<g>.initializers` and ranges over no
+                        # other graph (a set collected over `model.graphs()` also holds the initializers of sibling scopes)
+                        derived = {t.id for d in own_nodes(f.node) if isinstance(d, ast.Assign)
+                                   and any(isinstance(y, ast.Attribute) and y.attr == "initializers" and norm(y.value) == g for y in ast.walk(d.value))
+                                   and not any(isinstance(y, ast.Call) and isinstance(y.func, ast.Attribute) and y.func.attr in ("graphs", "subgraphs", "all_graphs") for y in ast.walk(d.value))
                                    for t in d.targets if isinstance(t, ast.Name)}
-                        ok = all(any((isinstance(y, ast.Attribute) and y.attr == "initializers") or (isinstance(y, ast.Name) and y.id in derived)
-                                     or (isinstance(y, ast.Call) and isinstance(y.func, ast.Attribute) and y.func.attr == "is_initializer") for y in ast.walk(t)) for t in tests)
-                        ctx.check("R11", f"{f.local}: an input of `{g}` is left out only if it is one of its initializers", ok, f, tests[0],
-                                  f"`{norm(tests[0])[:70]}` decides which inputs of `{g}` are dropped without asking whether the graph's initializers define them: an input "
-                                  "that merely carries data (a `const_value` set as an analysis hint) is removed from the inputs although nothing else defines it - the "
-                                  "nodes that read it dangle and the checker rejects the model",
+                        foreign = {t.id for d in own_nodes(f.node) if isinstance(d, ast.Assign) and any(isinstance(y, ast.Attribute) and y.attr == "initializers" for y in ast.walk(d.value))
+                                   for t in d.targets if isinstance(t, ast.Name)} - derived
+                        ok = all(any((isinstance(y, ast.Attribute) and y.attr == "initializers" and norm(y.value) == g) or (isinstance(y, ast.Name) and y.id in derived)
+                                     or (isinstance(y, ast.Call) and isinstance(y.func, ast.Attribute) and y.func.attr == "is_initializer") for y in ast.walk(t)) for t in tests) \
+                            and not any(isinstance(y, ast.Name) and y.id in foreign for t in tests for y in ast.walk(t))
+                        ctx.check(rule, f"{f.local}: an input of `{g}` is left out only if it is one of its initializers", ok, f, tests[0],
+                                  f"`{norm(tests[0])[:70]}` decides which inputs of `{g}` are dropped without asking whether the initializers of `{g}` itself define them: an input "
+                                  "that merely carries data (a `const_value` set as an analysis hint), or whose name is also the name of an initializer of a sibling graph, is "
+                                  "removed from the inputs although nothing else defines it - the nodes that read it dangle and the checker rejects the model",
                                   how="tests around `<kept>.append(<input>)` in the loop that rebuilds <g>.inputs mention <g>.initializers (or a set built from them) or is_initializer()",
                                   construct=f"inputs of {g} dropped by a test that does not ask the initializers")
     ctx.require(n >= 1, "no pass rebuilds graph inputs from a filtered copy (RemoveInitializersFromInputsPass expected)")
